@@ -23,6 +23,14 @@ let digest (l : n list) : string =
   let rec take k l = if k = 0 then [] else match l with [] -> [] | x :: t -> x :: take (k - 1) t in
   Printf.sprintf "%d:%d:%d:%s" !i !s1 !s2 (hex_of_bytes (take 16 l))
 
+(* the EKM grid (the same in harness/cmd/c06 and checks/c06.py) *)
+let bytes_of_string (s : string) : n list = List.init (String.length s) (fun i -> n (Char.code s.[i]))
+let ekm_labels = List.map bytes_of_string ["a"; "EXPERIMENTAL verif c06"; "EXPORTER-verif-c06-" ^ String.make 51 'x']
+let ekm_contexts : n list option list =
+  [None; Some []; Some [n 0x5a]; Some (List.init 32 (fun i -> n ((i * 3 + 1) land 255)));
+   Some (List.init 300 (fun i -> n ((i * 7 + 5) land 255)))]
+let ekm_lengths = [1; 32; 33; 100]
+
 let handle (f : string array) : string =
   match f.(0) with
   | "A" ->
@@ -58,6 +66,23 @@ let handle (f : string array) : string =
                (hexlist_of f.(9)) (hexlist_of f.(10)) with
        | Some (a, b) -> "ok " ^ digest a ^ " " ^ digest b
        | None -> "err")
+  | "K" ->
+    (* exported keying material of a GMSSL connection: the extracted model of ekmFromMasterSecret over HMAC-SM3,
+       for every context of the grid (absent, empty, 1, 32, 300 bytes) at one label and one length of the grid,
+       rotating with the case number (the extracted SM3 specification is slow; checks/c06.py recomputes the
+       whole grid) *)
+    if f.(2) <> "0101" then "SKIP"
+    else
+      let id = int_of_string f.(1) in
+      let label = List.nth ekm_labels (id mod 3) and len = List.nth ekm_lengths (id mod 4) in
+      let ms = bytes_of_hex f.(4) and cr = bytes_of_hex f.(5) and sr = bytes_of_hex f.(6) in
+      let buf = Buffer.create 1200 in
+      List.iter (fun ctx ->
+          match gm_ekm (nat_of_int len) ms cr sr label ctx with
+          | Some x -> Buffer.add_string buf (hex_of_bytes x)
+          | None -> Buffer.add_string buf "!")
+        ekm_contexts;
+      "ok " ^ Buffer.contents buf
   | _ -> "BADCASE"
 
 let () = run_file Sys.argv.(1) handle
